@@ -33,7 +33,7 @@ func (p *Plenc) Marshal(data []byte, value interface{}) ([]byte, error) {
 	}
 
 	if c.Omit(ptr) {
-		return nil, nil
+		return data, nil
 	}
 	if data == nil {
 		data = make([]byte, 0, c.Size(ptr, nil))
